@@ -318,7 +318,9 @@ func Run[C any](t *testing.T, p Prop[C]) {
 		}
 		f := execute(p, c, o)
 		global.mu.Lock()
-		st.Evaluations++
+		if o.inconclusive == "" || f != nil {
+			st.Evaluations++ // an inconclusive case was generated but not judged: it is reported under its label only
+		}
 		for _, l := range o.labels {
 			st.Labels[l]++
 		}
